@@ -118,22 +118,32 @@ def Window.resolve (w : Window) (fps : F32) : Option (Option Int × Option Int) 
     | none => some w.endFrame
   pure (s, e)
 
+/-- frames skipped before the window: `start_frame` when it is given and positive -/
+def winStart (s : Option Int) : Nat :=
+  match s with
+  | some x => if x > 0 then x.toNat else 0
+  | none => 0
+
+/-- frames skipped after the window: `frames - min(end_frame, frames)` when `end_frame` is given (never negative) -/
+def winRem (frames : Nat) (e : Option Int) : Option Nat :=
+  e.map fun x => ((frames : Int) - min x (frames : Int)).toNat
+
 /-- `read_v0_1_frames`: skip to the start frame, read the window, skip the rest of the block.
-    `row` is the byte size of one frame of the block. Returns the number of frames read and their bytes. -/
+    `row` is the byte size of one frame of the block. Returns the number of frames read and their bytes.
+    Raises when the start is at or beyond the last frame, and (in numpy) when the window has negative length. -/
 def readFrames (frames row : Nat) (s e : Option Int) : Prog (Nat × Bytes) :=
-  let st : Int := match s with
-    | some x => if x > 0 then x else 0
-    | none => 0
-  if st > 0 ∧ st ≥ frames then .fail else
-  let rem : Option Int := e.map fun x => (frames : Int) - min x (frames : Int)
-  let n : Int := frames - st - rem.getD 0
-  if n < 0 then .fail else
-  let body : Prog (Nat × Bytes) :=
-    .unpack (n.toNat * row) fun b =>
-      match rem with
-      | some r => .skip (r.toNat * row) (.ret (n.toNat, b))
-      | none => .ret (n.toNat, b)
-  if st > 0 then .skip (st.toNat * row) body else body
+  let st := winStart s
+  let rem := winRem frames e
+  if 0 < st ∧ frames ≤ st then .fail
+  else if frames < st + rem.getD 0 then .fail
+  else
+    let n := frames - st - rem.getD 0
+    let tail : Prog (Nat × Bytes) :=
+      .unpack (n * row) fun b =>
+        match rem with
+        | some r => .skip (r * row) (.ret (n, b))
+        | none => .ret (n, b)
+    if 0 < st then .skip (st * row) tail else tail
 
 /-- the NumPy constructor: mask = `confidence == 0`, replicated over the coordinate axis (`np.stack([mask] * dims)` raises for `dims = 0`) -/
 def mkBody? (fps : Fps) (frames people points dims : Nat) (db cb : Bytes) : Option Body :=
